@@ -184,6 +184,10 @@ impl HitObjectsState {
         point_str: &str,
         offset: Pos,
     ) -> Result<(), ParseHitObjectsError> {
+        // A previous line might have failed after some of its segments were
+        // already converted.
+        self.curve_points.clear();
+
         let f = |this: &mut Self, point_split: &[&str]| {
             let mut start_idx = 0;
             let mut end_idx = 0;
